@@ -113,9 +113,10 @@ class OracleProxy(LocalProxy):
         if hook is not None:
             hook('request', sid, f, args)
         if f == 'step' and active:
-            log.append(('step', sid, args[0], args[2]))
+            inputs_copy = copy.deepcopy(args[1])
+            log.append(('step', sid, args[0], args[2], inputs_copy))
             if ref is not None:
-                ref.on_step_begin(sid, args[0], copy.deepcopy(args[1]), args[2])
+                ref.on_step_begin(sid, args[0], inputs_copy, args[2])
         elif f in ('setup_done', 'get_data') and active:
             log.append((f, sid))
         fault = ctx.get('fault')
@@ -312,7 +313,10 @@ def build(world, ref, topo, eng, cfg):
     counter = [0]
 
     def rec(tree, path):
-        for it in tree:
+        items = list(tree)
+        if cfg.get('reverse_start'):
+            items.reverse()
+        for it in items:
             if isinstance(it, (list, tuple)):
                 counter[0] += 1
                 gid = f'g{counter[0]}'
@@ -396,8 +400,10 @@ def run_world(eng, topo, cfg, behaviour=None, hook=None, fault=None, rules=None,
         until = eng.int('until', cfg.get('until_min', 1))
     loop = OracleLoop(eng, D=cfg.get('D', 0))
     log = []
-    ref = Ref(eng, rules=rules, lazy=cfg.get('lazy', True))
-    ref.prefix = cfg.get('rule_prefix', '')
+    ref = None
+    if not cfg.get('no_ref'):
+        ref = Ref(eng, rules=rules, lazy=cfg.get('lazy', True))
+        ref.prefix = cfg.get('rule_prefix', '')
     CTX.clear()
     CTX.update(eng=eng, loop=loop, K=cfg.get('K', 2), until=until, ref=ref, log=log,
                sync=set(cfg.get('sync', ())), future_outputs=cfg.get('future_outputs', False),
@@ -414,7 +420,8 @@ def run_world(eng, topo, cfg, behaviour=None, hook=None, fault=None, rules=None,
         r.world = w
         try:
             build(w, ref, topo, eng, cfg)
-            ref.start(until)
+            if ref is not None:
+                ref.start(until)
             loop.active = True
             try:
                 rk = dict(print_progress=False, lazy_stepping=cfg.get('lazy', True))
